@@ -40,6 +40,8 @@ def one(tools, W, spec, conformable=True):
             left = ws.tmp_entries(r.final)
             if left:
                 probs.append('left behind in TMPDIR: %s' % left)
+            if abnormal(r.status):
+                probs.append('abnormal termination (exit status %r): %s' % (r.status, r.err[-200:].decode('latin-1')))
             if r.helper:
                 probs.append('a command was executed: %s' % r.helper[:2])
             calls = r.calls()
@@ -71,7 +73,8 @@ def one(tools, W, spec, conformable=True):
                 if conform != 'ok':
                     conform = conform + ': ' + detail[:300]
             out.append({'scenario': spec.name, 'flag': flag, 'status': r.status, 'problems': probs, 'conform': conform,
-                        'ncalls': len(calls), 'config': scen.config.replace(scen.root, '@R@')[:600]})
+                        'ncalls': len(calls), 'config': scen.config.replace(scen.root, '@R@')[:600],
+                        'explained': flag == '-d' and b'^' in r.out and b'$\n' in r.out})
         return out
     finally:
         scen.args = list(spec.args)
@@ -99,6 +102,193 @@ def random_specs(rng, n):
     return specs
 
 
+# --------------------------------------------------------------------------
+# (a) -d on message CONTENT that drives the explanation printer (expr_inspect) into its corner cases, in stdin mode
+#     (where a run that dies leaves the spool behind) and in maildir mode
+# --------------------------------------------------------------------------
+
+LONG = 5000
+BODIES = [
+    b'Hello,\n    indented paragraph word\nBye\n',
+    b'\tword on a tabbed line\n \t mixed blanks word\n',
+    b'first\n\n\n   word after empty lines\n',
+    b'   word at the very start of the body\n',
+    b'no newline at the end   word',
+    b'a\n \n  \n   \nword\n\t\n',
+    b'caf\xc3\xa9 \xe2\x82\xac\n  \xc3\xa9word \xf0\x9f\x98\x80 tail\n\xe2\x80\x83word\n',
+    b'\xff\xfe   word \x80\n  \xc3word\n',
+    b'x' * LONG + b'   word ' + b'y' * LONG + b'\n   word\n',
+    b' ' * 3000 + b'word\n' + b'\t' * 700 + b'word\n',
+    b'word\n' * 300,
+    b'line\r\n   word\r\n\r\n',
+    b'\n',
+    b'',
+    b'  \n',
+    b'word',
+]
+HEADERS = [
+    b'X-Fold: first\n\tword second\n   third word\n',
+    b'X-Fold:    word\n',
+    b'X-Fold:\n',
+    b'X-Fold: \n\tword\n',
+    b'X-Fold: ' + b'z' * 3000 + b'\n word\n',
+    b'X-Fold: =?UTF-8?Q?caf=C3=A9?=\n =?UTF-8?Q?_word?= \xc3\xa9 word\n',
+    b'X-Fold: one\nX-Fold:   word two\n',
+]
+# (pattern, flags): matches that begin in the leading blanks of a line, at a newline, empty matches, whole value, sub-expressions
+PATTERNS = [
+    ('^[[:space:]]*word', ''), ('[[:space:]]+word', ''), ('^ +indented', ''), ('( *)(word)', ''), ('(^|[[:space:]])word', ''),
+    ('[[:space:]]*$', ''), ('^[[:space:]]+', ''), ('^', ''), ('$', ''), ('x*', ''), ('()', ''), ('(a|)(word|)', ''), ('.*', ''),
+    ('(.*)word(.*)', ''), ('[[:space:]]word[[:space:]]', ''), ('WORD', 'i'), ('([[:space:]]*)(W)(ORD)', 'il'), ('word', 'u'),
+    ('[^a-z]+word', ''), ('(\t| )+word', ''), ('^.{0,6000}word', ''), ('[[:space:]]{2,}', ''), ('\xc3\xa9', ''), ('[\x80-\xff]+', ''),
+]
+CORE = [0, 1, 3, 7]
+
+
+def content_message(i, body=None, header=b''):
+    return ws.msg(i, extra=header, body=body if body is not None else b'plain body word\n')
+
+
+def content_conf(rng, conds, mode):
+    """conds: list of ('body'|'header', pattern, flags)"""
+    parts, pats = [], []
+    for kind, p, f in conds:
+        parts.append(('body /%s/%s' % (p, f)) if kind == 'body' else ('header "X-Fold" /%s/%s' % (p, f)))
+        pats.append((p, f))
+    expr = parts[0]
+    for q in parts[1:]:
+        expr += rng.choice([' and ', ' or ']) + q
+    action = rng.choice(['move "@R@/dst"', 'move "@R@/dst"', 'label "l" move "@R@/dst"', 'flags "F" move "@R@/dst"', 'exec "@HELPER@" move "@R@/dst"',
+                         'add-header "X-A" "\\\\0" move "@R@/dst"', 'discard'])
+    head = 'stdin' if mode == 'stdin' else 'maildir "@R@/src"'
+    return '%s {\n\tmatch %s %s\n}\n' % (head, expr, action), pats
+
+
+def content_specs(rng, tier):
+    cases = []
+    for b in range(len(BODIES)):
+        for p in CORE:
+            cases.append((b, None, [('body',) + PATTERNS[p]]))
+    for h in range(len(HEADERS)):
+        for p in CORE[:3]:
+            cases.append((None, h, [('header',) + PATTERNS[p]]))
+    for _ in range(40 if tier == 'quick' else 1500):
+        conds = []
+        for _k in range(rng.choice([1, 1, 2])):
+            conds.append((rng.choice(['body', 'body', 'header']),) + rng.choice(PATTERNS))
+        cases.append((rng.randrange(len(BODIES)) if rng.random() < 0.8 else None, rng.randrange(len(HEADERS)) if rng.random() < 0.6 else None, conds))
+    specs = []
+    for n, (b, h, conds) in enumerate(cases):
+        mode = 'stdin' if n % 4 != 3 else 'maildir'
+        conf, pats = content_conf(rng, conds, mode)
+        m = content_message(7, BODIES[b] if b is not None else None, HEADERS[h] if h is not None else b'')
+        tree = {}
+        tree.update(proc.maildir_tree('dst', {}))
+        if mode == 'stdin':
+            sp = ws.Spec('content-%d' % n, conf, pats, tree=tree, stdin=m, args=['-'], kind='stdin')
+        else:
+            tree.update(proc.maildir_tree('src', {('new', '7.host'): m, ('cur', '8.host:2,S'): m.replace(b'X-Id: 7', b'X-Id: 8')}))
+            sp = ws.Spec('content-%d' % n, conf, pats, tree=tree)
+        sp.what = {'mode': mode, 'body': b, 'header': h, 'conditions': [list(c) for c in conds]}
+        specs.append(sp)
+    return specs
+
+
+# --------------------------------------------------------------------------
+# (b) single faults while -d runs (stdin mode: while the spool is set up, read and torn down)
+# (c) TMPDIR so long that <spool>/new does not fit PATH_MAX
+# --------------------------------------------------------------------------
+
+def abnormal(status):
+    """Killed by a signal (abort, segmentation fault), hung, or an exit status a shell would report as such."""
+    return not isinstance(status, int) or status < 0 or status >= 126
+
+
+def new_tmp_entries(scen, final):
+    return [rel for rel in ws.tmp_entries(final) if rel not in scen.initial]
+
+
+def judge_dry(scen, r, excused_cleanup=False):
+    probs = tree_equal(scen.initial, r.final)
+    left = new_tmp_entries(scen, r.final)
+    excused = False
+    if left:
+        if excused_cleanup:
+            excused = True     # failures of the best-effort removal itself: known finding F17e (C01/C04 treat it the same way)
+        else:
+            probs.append('left behind in TMPDIR: %s' % [l[-60:] for l in left[:4]])
+    if r.helper:
+        probs.append('a command was executed: %s' % r.helper[:2])
+    if abnormal(r.status):
+        probs.append('abnormal termination (exit status %r): %s' % (r.status, r.err[-200:].decode('latin-1')))
+    elif r.status not in (0, 1, 75):
+        probs.append('exit status %r (must be 0, 1 or 75)' % (r.status,))
+    return probs, excused
+
+
+def dry_fault_sweep(tools, spec, tier):
+    out = []
+    scen = spec.build(tools)
+    try:
+        scen.args = ['-d'] + list(spec.args)
+        clean = scen.run()
+        calls = clean.calls()
+        probs, _ = judge_dry(scen, clean)
+        out.append({'scenario': spec.name, 'plan': None, 'status': clean.status, 'problems': probs, 'fired': False, 'excused': False,
+                    'ncalls': len(calls), 'call': ''})
+        for k, c in enumerate(calls):
+            errs = ws.ERRNOS.get(c['name'], ['EIO'])
+            for e in (errs[:2] if tier == 'quick' else errs):
+                scen.reset()
+                r = scen.run(fail='%d:%s' % (k, e))
+                fired = any(t.get('fault') for t in r.trace if t['kind'] == 'call')
+                cleanup = spec.kind == 'stdin' and any(calls[j]['name'] == 'rewinddir' for j in range(0, k + 1))
+                probs, excused = judge_dry(scen, r, excused_cleanup=cleanup)
+                out.append({'scenario': spec.name, 'plan': '%d:%s' % (k, e), 'call': c['raw'].replace(scen.root, '@R@')[:160], 'status': r.status,
+                            'problems': probs, 'fired': fired, 'excused': excused, 'config': scen.config.replace(scen.root, '@R@')[:300]})
+        return out
+    finally:
+        scen.args = list(spec.args)
+        scen.cleanup()
+
+
+def deep_dir(prefix, total):
+    """A path below `prefix` of exactly `total` characters, components of at most 200 characters (cf. c18.deep)."""
+    rem = total - len(prefix)
+    assert rem >= 2
+    p, k = prefix, 0
+    while rem > 202:
+        p += '/' + ('d%d' % (k % 10)) + 'y' * 198
+        rem -= 201
+        k += 1
+    for part in ([rem] if rem <= 201 else [101, 101]):
+        p += '/' + 'e' * (part - 1)
+    assert len(p) == total, (len(p), total)
+    return p
+
+
+def long_tmpdir(tools, spec, total):
+    """-d - with TMPDIR an existing directory whose path has exactly `total` characters."""
+    import os
+    scen = spec.build(tools)
+    try:
+        T = deep_dir(os.path.join(scen.root, 'tmp'), total)
+        os.makedirs(T)
+        scen.initial = proc.snapshot(scen.root, skip=('conf',))
+        scen.env_extra = dict(scen.env_extra, TMPDIR=T)
+        scen.args = ['-d'] + list(spec.args)
+        r = scen.run(trace=False)
+        probs, _ = judge_dry(scen, r)
+        fits = total + 1 + len('mdsort-XXXXXXXX') + 4 < 4096
+        if not fits and r.status == 0:
+            probs.append('TMPDIR of %d characters: the spool path does not fit PATH_MAX but the exit status is 0' % total)
+        return {'scenario': spec.name, 'plan': 'TMPDIR of %d characters' % total, 'status': r.status, 'problems': probs, 'fired': not fits,
+                'excused': False, 'call': '', 'config': scen.config.replace(scen.root, '@R@')[:300], 'stderr': r.err[-160:].decode('latin-1')}
+    finally:
+        scen.args = list(spec.args)
+        scen.cleanup()
+
+
 def run(rep):
     rng = random.Random(rep.seed)
     sc = vlib.Scratch()
@@ -119,17 +309,43 @@ def run(rep):
     specs.append((ws.Spec('attachment-last-nomatch', 'maildir "%s/src" {\n\tmatch all attachment { match header "Content-Type" /plain/ exec stdin "@HELPER@" }\n}\n' % R,
                           [('plain', '')], tree=t), True))
     specs += random_specs(rng, 25 if rep.tier == 'quick' else 600)
+    cspecs = content_specs(rng, rep.tier)
+    what = {s.name: s.what for s in cspecs}
+    stdin_msg = {s.name: s.stdin for s in cspecs if s.kind == 'stdin'}
+    specs += [(s, True) for s in cspecs]
     results = []
     with cf.ThreadPoolExecutor(vlib.NCPU) as ex:
         for res in ex.map(lambda sp: one(tools, W, sp[0], sp[1]), specs):
             results.extend(res)
+    # (b) single faults under -d: every stdin scenario (spool set-up, reading, tear-down), two with explanations to print, and maildir ones
+    corpus = ws.corpus()
+    fspecs = [s for s in corpus if s.kind == 'stdin'] + [s for s in cspecs if s.kind == 'stdin'][:2]
+    fspecs += [s for s in corpus if s.kind != 'stdin' and (rep.tier != 'quick' or s.name in ('move', 'label', 'exec-body'))]
+    fres = []
+    with cf.ThreadPoolExecutor(vlib.NCPU) as ex:
+        for res in ex.map(lambda s: dry_fault_sweep(tools, s, rep.tier), fspecs):
+            fres.extend(res)
+    # (c) TMPDIR length around the point where <TMPDIR>/mdsort-XXXXXXXX fits PATH_MAX and <spool>/new does not
+    limit = 4096 - 1 - len('mdsort-XXXXXXXX') - 4
+    lspec = [s for s in corpus if s.name == 'stdin-move'][0]
+    with cf.ThreadPoolExecutor(vlib.NCPU) as ex:
+        # second window: where the path of the spooled message itself (<spool>/new/<22-character name>) stops fitting: there the spool
+        # has been written before the run fails
+        lengths = list(range(limit - 23 - 8, limit - 23 + 9)) + list(range(limit - 8, limit + 9))
+        lres = list(ex.map(lambda t: long_tmpdir(tools, lspec, t), lengths))
     corr_bad = []
     for r in results:
         if r['problems']:
-            rep.finding('unlisted', {'scenario': r['scenario'], 'option': r['flag'], 'exit_status': r['status'], 'what': r['problems'][:6],
-                                     'config': r['config']})
+            rep.finding('unlisted', dict({'scenario': r['scenario'], 'option': r['flag'], 'exit_status': r['status'], 'what': r['problems'][:6],
+                                          'config': r['config']},
+                                         **({'content_case': what[r['scenario']], 'stdin_message': repr(stdin_msg.get(r['scenario'], b''))[:1500]}
+                                            if r['scenario'] in what else {})))
         elif r['conform'] not in ('ok', 'skipped'):
             corr_bad.append(r)
+    for r in fres + lres:
+        if r['problems']:
+            rep.finding('unlisted', {'scenario': r['scenario'], 'option': '-d', 'fault_plan': r['plan'], 'call': r['call'], 'exit_status': r['status'],
+                                     'what': r['problems'][:6], 'config': r.get('config', ''), 'stderr': r.get('stderr', '')})
     if corr_bad and not rep.violations:
         rep.violation({'obligation': 'correspondence: a -d / -n run does not follow Model.mainP', 'disagreements': len(corr_bad),
                        'examples': corr_bad[:6]}, False)
@@ -137,14 +353,40 @@ def run(rep):
     rep.coverage.update({
         'evaluations': len(results),
         'distinct_nontrivial': len([r for r in results if r['flag'] == '-d' and r['ncalls'] > 6]),
-        'rule': '%d configurations (the C01 scenario corpus incl. stdin mode, two whose real run fails, %d generated rule trees with exec '
-                'actions over 3-message populations), each run with -d and with -n on the real binary: tree snapshot (names, contents, '
+        'rule': '%d configurations (the C01 scenario corpus incl. stdin mode, four whose real run fails or ends early, %d generated rule trees '
+                'with exec actions over 3-message populations, the explanation-content family below), each run with -d and with -n on the '
+                'real binary: tree snapshot (names, contents, '
                 'mtimes) unchanged, TMPDIR empty, no command executed, no mutating libc call inside a maildir (-d) / no call beyond the '
                 'configuration file (-n); where the configuration is within the world model, call-by-call conformance with Model.mainP; '
-                'non-trivial = dry runs that actually walked messages' % (len(specs), len(specs) - len(ws.corpus()) - 2),
+                'non-trivial = dry runs that actually walked messages' % (len(specs), len(specs) - len(ws.corpus()) - 4 - len(cspecs)),
         'samples': results[:2],
         'correspondence_mismatches': len(corr_bad),
+        'explanation_content': {
+            'configurations': len(cspecs), 'stdin_mode': len([s for s in cspecs if s.kind == 'stdin']),
+            'dry_runs_that_printed_an_explanation': len([r for r in results if r['scenario'] in what and r['flag'] == '-d' and r.get('explained')]),
+            'rule': '%d bodies x %d header blocks x %d patterns (every body/header with 4 core patterns, the rest sampled; 3 of 4 in stdin mode, '
+                    '1 of 4 as a maildir): matches beginning in the leading blanks of a line, at a newline, empty matches, lines of %d bytes, '
+                    'thousands of leading blanks, multibyte and invalid UTF-8, CRLF, folded / empty / repeated headers; judged like every other '
+                    'configuration (tree unchanged, TMPDIR empty, nothing executed, no mutating call, -d/-n conformance with Model.mainP) and the '
+                    'run must not end by a signal' % (len(BODIES), len(HEADERS), len(PATTERNS), LONG),
+        },
+        'dry_faults': {
+            'scenarios': [s.name for s in fspecs], 'runs': len(fres), 'faults_fired': len([r for r in fres if r['fired']]),
+            'spool_left_by_failing_cleanup_call_F17e': len([r for r in fres if r['excused']]),
+            'exit_status_histogram': {str(k): len([r for r in fres if r['status'] == k]) for k in sorted(set(r['status'] for r in fres), key=str)},
+            'rule': 'one -d run per (call index, errno/short) of the call sequence of the fault-free -d run: maildirs identical (names, contents, '
+                    'mtimes), nothing new below TMPDIR unless the failing call is at or after the rewinddir of the best-effort spool removal '
+                    '(known finding F17e, as in C01/C04), nothing executed, exit status 0/1/75 and never a signal',
+        },
+        'long_tmpdir': {
+            'lengths': [int(r['plan'].split()[2]) for r in lres], 'rejected': len([r for r in lres if r['status'] == 75]),
+            'rule': '-d - with TMPDIR an existing directory of every length within +-8 of the points where the path of the spooled message and '
+                    'where <TMPDIR>/mdsort-XXXXXXXX/new stop fitting PATH_MAX: nothing new below TMPDIR, maildirs identical, exit status 0/75 and '
+                    '75 when the spool directory does not fit',
+        },
     })
+    rep.coverage['evaluations'] += len(fres) + len(lres)
+    rep.coverage['distinct_nontrivial'] += len([r for r in fres if r['fired']]) + len([r for r in lres if r['fired']])
 
 
 def replay(rep, path):
